@@ -860,6 +860,23 @@ func checkHist(ops []Op) (string, string) {
 					out[mod(op.I, len(out))] = types.NewEntityUID("Mut", "z")
 				}
 			}
+		case "decode-into-copy": // assign the value to a new variable and decode a JSON document into that copy
+			if o := pickObj(op.T, "set", "rec", "uids"); o != nil {
+				switch o.kind {
+				case "set":
+					cp := o.val.(types.Set)
+					_ = cp.UnmarshalJSON([]byte(`[{"__entity":{"type":"Mut","id":"j"}}, 77, "mut", {"mut": 1}]`))
+					_ = json.Unmarshal([]byte(`[78]`), &cp)
+				case "rec":
+					cp := o.val.(types.Record)
+					_ = cp.UnmarshalJSON([]byte(`{"mut": 1, "a": "mut", "b": [1], "": {"__entity":{"type":"Mut","id":"j"}}}`))
+					_ = json.Unmarshal([]byte(`{"mut2": 2}`), &cp)
+				case "uids":
+					cp := o.uids
+					_ = cp.UnmarshalJSON([]byte(`[{"type":"Mut","id":"j"},{"type":"Mut","id":"k"}]`))
+					_ = json.Unmarshal([]byte(`[{"type":"Mut","id":"l"}]`), &cp)
+				}
+			}
 		case "nested-out": // take a nested set/record handed out by an accessor, and mutate what *its* accessors return
 			if o := pickObj(op.T, "set", "rec"); o != nil && len(o.nested) > 0 {
 				switch n := o.nested[mod(op.I, len(o.nested))].(type) {
@@ -884,7 +901,7 @@ func checkHist(ops []Op) (string, string) {
 	return "", ""
 }
 
-var opKinds = []string{"newset", "newrec", "newuids", "mut-in", "mut-in", "out", "out", "mut-out", "nested-out"}
+var opKinds = []string{"newset", "newrec", "newuids", "mut-in", "mut-in", "out", "out", "mut-out", "nested-out", "decode-into-copy"}
 
 func genOp(rt *rapid.T, i int) Op {
 	k := gen.Pick(rt, opKinds, "opkind")
@@ -1258,7 +1275,7 @@ func TestImmutability(t *testing.T) {
 		var labels []string
 		muts := 0
 		for _, op := range c.Ops {
-			if op.K == "mut-in" || op.K == "out" || op.K == "mut-out" || op.K == "nested-out" {
+			if op.K == "mut-in" || op.K == "out" || op.K == "mut-out" || op.K == "nested-out" || op.K == "decode-into-copy" {
 				muts++
 			}
 			labels = append(labels, "op:"+op.K)
@@ -1282,7 +1299,7 @@ func TestImmutabilityTable(t *testing.T) {
 		{K: "newrec", Ks: []string{"a", "b", ""}, Vs: []ir.Value{ir.Long(1), ir.Set(ir.Long(1), ir.Long(2)), ir.Rec(ir.F("a", ir.Long(1)))}},
 		{K: "newuids", Vs: []ir.Value{ir.Ent("T0", "a"), ir.Ent("T0", "b"), ir.Ent("T1", "a")}},
 	} {
-		for _, m := range []string{"mut-in", "out", "nested-out"} {
+		for _, m := range []string{"mut-in", "out", "nested-out", "decode-into-copy"} {
 			for i := 0; i < 5; i++ {
 				for j := 0; j < 12; j++ {
 					for _, v := range []*ir.Value{&v1, &v2} {
